@@ -610,6 +610,19 @@ GenBurst ==
       /\ Cardinality(P) \in 2..3
       /\ nu + Cardinality(P) - 1 <= MaxUid
       /\ Edit(who, "burst", f, BurstFrom(wt[f], P, 0, nu))
+\* the same with TWO fresh lines per chosen gap (hunks whose length matters to line-number arithmetic)
+RECURSIVE Burst2From(_, _, _, _)
+Burst2From(c, P, k, u) ==
+  IF k > Len(c) THEN <<>>
+  ELSE (IF k \in P THEN << <<u, 0>>, <<u + 1, 0>> >> ELSE <<>>)
+       \o (IF k < Len(c) THEN << c[k + 1] >> ELSE <<>>)
+       \o Burst2From(c, P, k + 1, IF k \in P THEN u + 2 ELSE u)
+GenBurst2 ==
+  \E who \in Author, f \in File :
+    \E P \in SUBSET (0..Len(wt[f])) :
+      /\ Cardinality(P) \in 2..3
+      /\ nu + 2 * Cardinality(P) - 1 <= MaxUid
+      /\ Edit(who, "burst", f, Burst2From(wt[f], P, 0, nu))
 
 EditOn(k) == "edit" \in Alphabet \/ k \in Alphabet
 GenEdit ==
@@ -1159,7 +1172,8 @@ CherryPickMany(seq) ==
 \* stages it and concludes with `how`.  The intermediate work tree (conflict markers) is not a model state.
 \*   res  "theirs": the conflicted file is taken as the replayed commit has it
 \*        "union" : our version followed by the lines the replayed commit adds
-\*   how  "continue" (--continue), "commit" (cherry-pick concluded by a plain commit), "abort" (--abort)
+\*   how  "continue" (--continue), "commit" (cherry-pick concluded by a plain commit), "abort" (--abort),
+\*        "skip" (--skip at every stop: the conflicting commits are left out)
 AddedLines(o, f) == LET p == TreeOf(par[o])[f] c == tree[o][f]
                     IN SelectSeq(c, LAMBDA x : x \notin LinesOf(p))
 ResolveFile(base, o, f, res) == IF res = "theirs" THEN tree[o][f] ELSE base[f] \o AddedLines(o, f)
@@ -1172,8 +1186,8 @@ ResolvedTree(base, o, res) ==
 NoForeign(base, o, nt) == \A f \in File : LinesOf(nt[f]) \subseteq LinesOf(base[f]) \cup LinesOf(AddedLines(o, f))
 NoDupUids(t) == \A f \in File : Cardinality(UidsOf(t[f])) = Len(t[f])
 \* replay `chain` on `on`, resolving conflicts with res; [tree, par, ckind, notes, nc, last, stops]
-RECURSIVE RunR(_, _, _, _, _, _, _)
-RunR(chain, on, T, P, K, st, res) ==
+RECURSIVE RunR(_, _, _, _, _, _, _, _)
+RunR(chain, on, T, P, K, st, res, how) ==
   IF chain = <<>> THEN [tree |-> T, par |-> P, ckind |-> K, notes |-> st.notes, nc |-> st.nc, last |-> on, stops |-> st.stops,
                         ok |-> st.ok]
   ELSE LET o  == Head(chain)
@@ -1181,20 +1195,24 @@ RunR(chain, on, T, P, K, st, res) ==
            cf == ~PatchOK(T[on], TreeOf(par[o]), tree[o])
            nt == IF cf THEN ResolvedTree(T[on], o, res) ELSE PatchTree(T[on], TreeOf(par[o]), tree[o])
            N2 == [st.notes EXCEPT ![k] = FollowNote(notes, o, nt, T[on])]
-       IN RunR(TLCEval(Tail(chain)), k, TLCEval([T EXCEPT ![k] = nt]), TLCEval([P EXCEPT ![k] = on]),
+       IN IF cf /\ how = "skip"
+          THEN \* --skip: the conflicting commit is left out, the operation goes on with the next one
+               RunR(TLCEval(Tail(chain)), on, T, P, K, TLCEval([st EXCEPT !.stops = @ + 1]), res, how)
+          ELSE RunR(TLCEval(Tail(chain)), k, TLCEval([T EXCEPT ![k] = nt]), TLCEval([P EXCEPT ![k] = on]),
                TLCEval([K EXCEPT ![k] = st.kind]),
                TLCEval([notes |-> N2, nc |-> k, kind |-> st.kind, stops |-> st.stops + (IF cf THEN 1 ELSE 0),
-                        ok |-> st.ok /\ NoDupUids(nt) /\ nt # T[on] /\ NoForeign(T[on], o, nt)]), res)
+                        ok |-> st.ok /\ NoDupUids(nt) /\ nt # T[on] /\ NoForeign(T[on], o, nt)]), res, how)
 RunStart(kind) == [notes |-> notes, nc |-> nc, kind |-> kind, stops |-> 0, ok |-> TRUE]
 \* the command leaves everything git-ai knows as it was (evaluated on the observed next state)
 AbortViol == IF Gen THEN {}
              ELSE IF wl' # wl \/ ini' # ini \/ notes' # notes THEN {"C02_AbortNoop"} ELSE {}
 
 ConflictEpisode(kind, chain, on, res, how, rec) ==
-  LET r == RunR(chain, on, tree, par, ckind, RunStart(kind), res)
+  LET r == RunR(chain, on, tree, par, ckind, RunStart(kind), res, how)
   IN
   /\ Guard(/\ NoAgentDirty /\ stash = <<>> /\ wt = HeadTree /\ idx = HeadTree
-           /\ nc + Len(chain) <= MaxCommit /\ r.ok /\ r.stops >= 1)
+           /\ nc + Len(chain) <= MaxCommit /\ r.ok /\ r.stops >= 1
+           /\ (how = "skip" => (Len(chain) >= 2 /\ res = "theirs")))       \* res plays no part in a skip
   /\ UNCHANGED <<truth, nu, der, dirty, stash, snote>>
   /\ IF how = "abort"
      THEN /\ GitAdopt(SameG) /\ AiSame(SameG) /\ ops' = ops
@@ -1239,7 +1257,7 @@ GenRewrite ==
         IN /\ Len(full) > n
            /\ \E plan \in PlansFor(SubSeq(full, Len(full) - n + 1, Len(full))) : IRebase(n, plan)
   \/ "cherry_many" \in Alphabet /\ \E a \in 1..nc, b \in 1..nc : CherryPickMany(<<a, b>>)
-  \/ "conflict" \in Alphabet /\ \E res \in {"theirs", "union"}, how \in {"continue", "commit", "abort"} :
+  \/ "conflict" \in Alphabet /\ \E res \in {"theirs", "union"}, how \in {"continue", "commit", "abort", "skip"} :
         \/ \E o \in 1..nc : CherryPickR(o, res, how)
         \/ RebaseR(res, how)
         \/ \E a \in 1..nc, b \in 1..nc : CherryPickManyR(<<a, b>>, res, how)
@@ -1283,6 +1301,7 @@ Next ==
   /\ Len(hist) < MaxSteps
   /\ \/ GenEdit
      \/ "burst" \in Alphabet /\ GenBurst
+     \/ "burst2" \in Alphabet /\ GenBurst2
      \/ "ckpt" \in Alphabet /\ GenCheckpoint
      \/ GenStage
      \/ GenCommit
@@ -1291,6 +1310,7 @@ Next ==
      \/ "mv" \in Alphabet /\ \E f \in File, g \in File : Mv(f, g)
      \/ "readonly" \in Alphabet /\ \E c \in {"status", "log", "diff"} : ReadOnly(c)
      \/ "readonly_more" \in Alphabet /\ \E c \in {"bad", "global", "plumbing", "alias"} : ReadOnly(c)
+     \/ "dryrun" \in Alphabet /\ ReadOnly("dryrun")
      \/ "ckpt_repeat" \in Alphabet /\ CkptRepeat
 
 Spec == Init /\ [][Next]_vars
